@@ -155,6 +155,34 @@ func c20Verdict(c *Case, r c20Req, resp httpResp) []Violation {
 			if _, ok := obj["request"]; !ok {
 				vs = append(vs, viol(c, "C20/request-not-echoed", "rejection of %s does not echo the request: %.200s", r.Name, resp.Body))
 			}
+			if r.Class == "invalid" {
+				// the echoed request is the request that was sent: same alternatives with the same values, nothing a
+				// bias generated on the way to the rejection
+				var sent map[string]interface{}
+				if json.Unmarshal([]byte(r.Body), &sent) == nil {
+					sk, ek := asL(sent["knownAlternatives"]), asL(asM(obj["request"])["knownAlternatives"])
+					if len(sk) != len(ek) {
+						vs = append(vs, viol(c, "C20/echo-differs", "rejection of %s echoes %d known alternatives, %d were sent", r.Name, len(ek), len(sk)))
+					}
+					for i := 0; i < len(sk) && i < len(ek); i++ {
+						sa, ea := asM(sk[i]), asM(ek[i])
+						if sa == nil || ea == nil {
+							continue
+						}
+						sc, ec := asM(sa["criteria"]), asM(ea["criteria"])
+						bad := asS(sa["id"]) != asS(ea["id"])
+						for k, v := range ec {
+							if sv, ok := sc[k]; !ok || J(sv) == nil || string(J(sv)) != string(J(v)) {
+								bad = true
+							}
+						}
+						if bad {
+							vs = append(vs, viol(c, "C20/echo-differs", "rejection of %s echoes alternative %d as %v, it was sent as %v", r.Name, i, ea, sa))
+							break
+						}
+					}
+				}
+			}
 			msg := fmt.Sprint(obj["error"])
 			if r.Rule == "unknown-preference-function" {
 				for _, n := range methodNames {
